@@ -1460,6 +1460,10 @@ func (sa *Application) tryReservedAllocate(headRoom *resources.Resource, nodeIte
 				continue
 			}
 		}
+		// a reserved node that is no longer schedulable (draining) must not be used unless the ask requires that node
+		if ask.GetRequiredNode() == "" && !reserve.node.IsSchedulable() {
+			continue
+		}
 		// check allocation possibility
 		// we don't care about predicate error messages here
 		result, _ := sa.tryNode(reserve.node, ask) //nolint:errcheck
